@@ -1,5 +1,6 @@
 """C14 — every character reference decodes to the standard's replacement."""
 import html.entities
+import re
 from collections import deque
 
 from h5 import lean, wire
@@ -101,6 +102,49 @@ def run(ctx):
                 if got != exp:
                     ctx.fail("named:%s:%s" % (ctxname, name), "named character reference decodes differently from the standard",
                              {"input": text, "state": state, "expected": exp, "got": got})
+                reqs.append("tok %s ~ 0 %s" % (state, wire.enc_str(text)))
+                reals.append("ok " + wire.enc_list(tok_corr.enc_ttok(t) for t in toks))
+    # ---- the prefix walk runs past a legacy (semicolon-less) name: every proper prefix of every longer key
+    legacy = [k for k in names if not k.endswith(";")]
+    walk = set()
+    for L in legacy:
+        for K in names:
+            if K.startswith(L) and len(K) > len(L):
+                for j in range(len(L) + 1, len(K) + (0 if K.endswith(";") else 1)):
+                    walk.add(K[:j])
+    walk = sorted(walk)
+    if ctx.tier != "thorough":
+        ctx.rng.shuffle(walk)
+        walk = walk[:150] + ["noti", "notin", "copys", "ltr", "gtc", "degr"]
+    for s in walk:
+        for term in ['"', "'", " ", "-", "/", ">", "&", "", "=", "x", "1", ";"]:
+            cases = [("dq", '<a t="&%s%s">' % (s, term if term != '"' else ""), "dataState"),
+                     ("sq", "<a t='&%s%s'>" % (s, term if term != "'" else ""), "dataState"),
+                     ("data", "&%s%s" % (s, term), "dataState")]
+            if term in (" ", ">", ""):
+                cases.append(("unq", "<a t=&%s%s>" % (s, term if term != ">" else ""), "dataState"))
+            for ctxname, text, state in cases:
+                toks = real_tokens(text, state)
+                in_attr = ctxname != "data"
+                if in_attr:
+                    got = dict(next((t["data"] for t in toks if t["type"] == 3), {})).get("t")
+                    inner = re.search(r"t=[\"']?&(.*?)[\"']?>$", text, re.S).group(1) if False else None
+                else:
+                    got = chars_of(toks)
+                # the reference text as the tokenizer sees it inside the value
+                if ctxname == "dq":
+                    val = text[len('<a t="&'):-2]
+                elif ctxname == "sq":
+                    val = text[len("<a t='&"):-2]
+                elif ctxname == "unq":
+                    val = text[len("<a t=&"):-1].rstrip(" ")
+                else:
+                    val = text[1:]
+                exp = spec_named(val, in_attr)
+                ctx.case("named-walk", text, nontrivial=True)
+                if got != exp:
+                    ctx.fail("named-walk:%s:%s" % (ctxname, s), "named reference followed by a longer-name prefix decodes differently from the standard",
+                             {"input": text, "expected": exp, "got": got})
                 reqs.append("tok %s ~ 0 %s" % (state, wire.enc_str(text)))
                 reals.append("ok " + wire.enc_list(tok_corr.enc_ttok(t) for t in toks))
     # ---- numeric references
